@@ -799,6 +799,9 @@ func (o vfC04Out) String() string {
 	if o.mode == "choose" {
 		return fmt.Sprintf("choose: server=%q", o.target)
 	}
+	if o.mode == "attempt" {
+		return fmt.Sprintf("forwarded attempt of a retried request: target=%q", o.target)
+	}
 	return fmt.Sprintf("handle: target=%q result=%q status=%d sends=%d", o.target, o.result, o.status, o.sends)
 }
 
